@@ -565,14 +565,14 @@ func c07Attach(s *srv.Server, name string) (*c07Cons, error) {
 	if err != nil {
 		return nil, err
 	}
-	if _, ok := s.Notify.WaitSession(5*time.Second, "sub_start", cs.rtmp.RC.Conn.LocalAddr().String()); !ok {
+	if _, ok := s.Notify.WaitSession(5*time.Second, "sub_start", srv.Key(cs.rtmp.RC.Conn)); !ok {
 		return nil, fmt.Errorf("rtmp subscriber not admitted")
 	}
 	cs.flv, err = srv.StartHttpSub(s.HttpAddr(), "/live/"+name+".flv", "flv", 5*time.Second)
 	if err != nil {
 		return nil, err
 	}
-	if _, ok := s.Notify.WaitSession(5*time.Second, "sub_start", cs.flv.Conn.LocalAddr().String()); !ok {
+	if _, ok := s.Notify.WaitSession(5*time.Second, "sub_start", srv.Key(cs.flv.Conn)); !ok {
 		return nil, fmt.Errorf("flv subscriber not admitted")
 	}
 	return cs, nil
@@ -922,8 +922,19 @@ func c07Run(c *fw.Ctx, i int) {
 		vi, ai := 0, 0
 		psmSent := false
 		n := 0
-		for _, f := range src.es.Frames {
+		// several ADTS frames in one audio PES (cameras batch audio; only the first has a PTS)
+		multiAdts := sp.ACodec == "aac" && (i/7)%2 == 1
+		if multiAdts {
+			jd.ingest += "-multi-adts"
+		}
+		skipAudio := 0
+		for fk, f := range src.es.Frames {
 			var ps []byte
+			if !f.Video && skipAudio > 0 {
+				skipAudio--
+				ai++
+				continue
+			}
 			if f.Video {
 				ticks := src.vTicks[vi] + psOff
 				ps = ref.PsPackHeader(ticks)
@@ -963,9 +974,18 @@ func c07Run(c *fw.Ctx, i int) {
 				ps = ref.PsPackHeader(ticks)
 				p := f.Audio
 				if sp.ACodec == "aac" {
-					fl := len(p) + 7
-					h := []byte{0xFF, 0xF1, byte(sp.AacObj-1)<<6 | byte(sp.AacIdx)<<2 | byte(sp.AacChans>>2), byte(sp.AacChans&3)<<6 | byte(fl>>11), byte(fl >> 3), byte(fl&7)<<5 | 0x1f, 0xFC}
-					p = append(h, p...)
+					adts := func(raw []byte) []byte {
+						fl := len(raw) + 7
+						h := []byte{0xFF, 0xF1, byte(sp.AacObj-1)<<6 | byte(sp.AacIdx)<<2 | byte(sp.AacChans>>2), byte(sp.AacChans&3)<<6 | byte(fl>>11), byte(fl >> 3), byte(fl&7)<<5 | 0x1f, 0xFC}
+						return append(h, raw...)
+					}
+					p = adts(f.Audio)
+					if multiAdts && psmSent {
+						for q := fk + 1; q < len(src.es.Frames) && !src.es.Frames[q].Video && skipAudio < 2; q++ {
+							p = append(p, adts(src.es.Frames[q].Audio)...)
+							skipAudio++
+						}
+					}
 				}
 				ps = append(ps, ref.PsPes(0xC0, ticks, ticks, false, p, 65000)...)
 				if !psmSent && vt != 0 {
